@@ -165,15 +165,21 @@ def confirm_stall(ctx, hb, profile, s, tag):
     base = int(os.environ.get("VERIF_WATCHDOG_MS", "8000") or "8000")
     env["VERIF_WATCHDOG_MS"] = str(4 * base)
     env["VERIF_STALL_MS"] = str(4 * int(os.environ.get("VERIF_STALL_MS", "300") or "300"))
-    rc, out = C.sh([hb, "run", profile, "script", sp, tr], env=env, timeout=1200, cwd=ctx.work)
-    if rc != 0:
-        raise C.BuildError("client harness c11 failed while confirming a stall (rc=%s): %s" % (rc, out[-1500:]))
-    again = parse_trace(tr)
-    for a in again.values():
-        if (a.status or "").startswith("stuck"):
-            return True, a
-        return False, a
-    return False, None
+    # once as the machine is, then on one processor (see client_common.confirm_stall)
+    last = None
+    for procs in (None, "1"):
+        if procs:
+            env["GOMAXPROCS"] = procs
+        rc, out = C.sh([hb, "run", profile, "script", sp, tr], env=env, timeout=1200, cwd=ctx.work)
+        if rc != 0:
+            raise C.BuildError("client harness c11 failed while confirming a stall (rc=%s): %s" % (rc, out[-1500:]))
+        again = parse_trace(tr)
+        for a in again.values():
+            last = a
+            if (a.status or "").startswith("stuck"):
+                return True, a
+            break
+    return False, last
 
 
 def evaluate(ctx, prop, profile, scheds, m, mf, stats, tag, hb=None):
